@@ -93,6 +93,8 @@ fn materialize(t: &Value, style: u64) -> Vec<u8> {
         // padding with characters that are Unicode white space but NOT JSON white space
         "ffpad" => b"\x0c{\"==\":[1,1]}".to_vec(),
         "nbsppad" => "null\u{a0}".as_bytes().to_vec(),
+        // a byte order mark before the document: not JSON white space either
+        "bompad" => "\u{feff}{\"a\": 1}".as_bytes().to_vec(),
         "nelpad" => "\u{85}1".as_bytes().to_vec(),
         "lspad" => "[1]\u{2028}".as_bytes().to_vec(),
         // nesting far beyond the parser's recursion limit: must be a parse error, never a stack overflow
@@ -243,7 +245,8 @@ pub fn cmd_cli(args: &[String]) {
         let data_text = materialize(&s["data"], style);
         let mode = s["mode"].as_u64().unwrap_or(1);
         let (argv, stdin): (Vec<Vec<u8>>, Vec<u8>) = match mode {
-            1 => (vec![rule_text.clone(), data_text.clone()], b"JUNK-ON-STDIN".to_vec()),
+            // style 6: a valid document (the model's DV18[2]) waits on stdin although the data is an argument
+            1 => (vec![rule_text.clone(), data_text.clone()], if style == 6 { b"{\"a\":5}\n".to_vec() } else { b"JUNK-ON-STDIN".to_vec() }),
             2 => (vec![rule_text.clone()], data_text.clone()),
             _ => (vec![rule_text.clone(), b"-".to_vec()], data_text.clone()),
         };
